@@ -82,6 +82,8 @@ func runC01(c *fw.Ctx) {
 		bumpEvery = 2 + r.Intn(8)
 	}
 	m := lab.NewMPT(st.db, version, root)
+	baseRoot := append([]byte(nil), root...)
+	baseModel := lab.CopyContent(model)
 	c.Tracef("store=%s bumpEvery=%d alphabet=%s", st.name, bumpEvery, g.Alphabet)
 	if root != nil {
 		if f := lab.CheckMap(m, model, nil); f != "" {
@@ -100,7 +102,9 @@ func runC01(c *fw.Ctx) {
 	}
 	for i := 0; i < nops; i++ {
 		if bumpEvery > 0 && i > 0 && i%bumpEvery == 0 {
-			version++
+			if r.Intn(2) == 0 {
+				version++
+			} // else: a new trie object (cold cache) at the same version
 			m = lab.NewMPT(st.db, version, m.GetRoot())
 			c.Tracef("reopen v%d", version)
 		}
@@ -216,6 +220,13 @@ func runC01(c *fw.Ctx) {
 			fail("after %s %q (path ended at %s): %s", opName, p, term, f)
 			return
 		}
+		if i%5 == 4 { // a second handle with a cold cache on the same store, root and version reads the same content
+			if f := lab.CheckMap(lab.NewMPT(st.db, version, m.GetRoot()), model, nil); f != "" {
+				fail("a fresh trie object on the same store and root (cold cache) after %s %q: %s", opName, p, f)
+				return
+			}
+			c.Count("cold_reader_checks", 1)
+		}
 		nodesAfter, missing := lab.Walk(st.db, m.GetRoot())
 		if len(missing) > 0 {
 			fail("after %s %q: %d reachable node(s) absent from the store", opName, p, len(missing))
@@ -230,6 +241,15 @@ func runC01(c *fw.Ctx) {
 		if opName == "ins" || (opName == "del" && present) {
 			c.Distinct("transitions", fw.Hash64(opName, term, aL-bL, aF-bF, aE-bE))
 		}
+	}
+	// operations on a layered trie never touch the lower level: the state the history started from is still readable,
+	// unchanged, from the lower store alone
+	if st.base != nil {
+		if f := lab.CheckMap(lab.NewMPT(st.base, 1, baseRoot), baseModel, nil); f != "" {
+			fail("the base state below the layered store changed: %s", f)
+			return
+		}
+		c.Count("base_state_rechecked", 1)
 	}
 	c.Count("store:"+st.name, 1)
 	if restructuring > 0 {
@@ -249,7 +269,7 @@ func init() {
 		ID:    "C01",
 		Level: "exploration",
 		Rule: "seeded histories of 8..60 (quick) / 8..120 (thorough) operations (insert/overwrite, delete of present and absent paths, insert of nil/empty value, typed lookup, rare over-size insert) on one of four stores " +
-			"(memory; memory over memory with base content; persistent; memory over persistent), optionally re-opening the trie at a higher version every k operations. Paths are even-length lowercase hex of length 0..12 over 2-4 symbols, " +
+			"(memory; memory over memory with base content; persistent; memory over persistent), optionally re-opening the trie (new object, cold cache) at a higher or at the same version every k operations; every fifth operation a second trie object on the same store, root and version must read the same content; at the end the base state below a layered store must be unchanged. Paths are even-length lowercase hex of length 0..12 over 2-4 symbols, " +
 			"picked relative to live paths (same, proper prefix, extension, sibling, divergent tail) so that node-boundary coincidences occur. After every operation: every live path looks up to its value, ~20 related absent paths return ErrValueNotPresent, " +
 			"Iterate equals the map, every reachable node is in the store. A history is non-trivial if it contains at least one successful delete that changed the number of branch or extension nodes; distinct by full trace hash",
 		Cases: func(tier string) int {
@@ -260,7 +280,7 @@ func init() {
 		},
 		Run: runC01,
 		Floors: map[string]int64{"ops": 200000, "restructuring_deletes": 5000, "delete_absent": 5000, "insert_empty_value": 2000, "getnodevalue": 2000, "oversize_rejected": 1,
-			"distinct:shapes": 500, "distinct:transitions": 30,
+			"distinct:shapes": 500, "distinct:transitions": 30, "cold_reader_checks": 50000, "base_state_rechecked": 5000,
 			"t:ins:ext-ends-at0-len1": 1, "t:ins:ext-ends-at0": 1, "t:ins:ext-ends-mid": 1, "t:ins:ext-ends-mid-last": 1, "t:ins:ext-diverge-at0": 1, "t:ins:ext-diverge-mid": 1, "t:ins:ext-diverge-last": 1,
 			"t:ins:leaf-longer": 1, "t:ins:leaf-longer-at0": 1, "t:ins:leaf-shorter": 1, "t:ins:leaf-diverge-at0": 1, "t:ins:leaf-diverge-mid": 1, "t:ins:full-exact-novalue": 1, "t:ins:full-nochild": 1,
 			"t:del:ext-ends-at0": 1, "t:del:ext-ends-mid": 1, "t:del:full-exact-novalue": 1, "t:del:full-exact-value-1ch": 1, "t:del:full-exact-value-2ch": 1, "t:del:leaf-longer-at0": 1, "t:del:leaf-longer": 1,
